@@ -52,23 +52,23 @@ Print Assumptions C05_carrier_equivalence.
 (* precedence: .thailint.yaml, then .thailint.json, then pyproject; --config before all; CLI options before the file *)
 Theorem C05_yaml_wins : forall q c dy fj fp,
   flags_off q -> case_good c = true -> lang_good c = true ->
-  run q (with_proj c {| p_yaml := Doc dy; p_json := fj; p_pyproject := fp; p_dash := None |})
+  run q (with_proj c {| p_yaml := Doc dy; p_json := fj; p_pyproject := fp; p_dash := None; p_ignore_file := []; p_subdir := false |})
   = run q (with_proj c (only_yaml dy)).
 Proof. exact yaml_wins. Qed.
 Print Assumptions C05_yaml_wins.
 
 Theorem C05_json_wins : forall q c dj fp,
   flags_off q -> case_good c = true -> lang_good c = true ->
-  run q (with_proj c {| p_yaml := Absent; p_json := Doc dj; p_pyproject := fp; p_dash := None |})
+  run q (with_proj c {| p_yaml := Absent; p_json := Doc dj; p_pyproject := fp; p_dash := None; p_ignore_file := []; p_subdir := false |})
   = run q (with_proj c (only_json dj)).
 Proof. exact json_wins. Qed.
 Print Assumptions C05_json_wins.
 
 Theorem C05_dash_config_wins : forall q c fy fj fp pos suf dd,
   flags_off q -> case_good c = true -> lang_good c = true -> smem suf doc_valid_suffixes = true ->
-  spec_discovered {| p_yaml := fy; p_json := fj; p_pyproject := fp; p_dash := None |} <> LErr ->
+  spec_discovered {| p_yaml := fy; p_json := fj; p_pyproject := fp; p_dash := None; p_ignore_file := []; p_subdir := false |} <> LErr ->
   run q (with_proj c {| p_yaml := fy; p_json := fj; p_pyproject := fp;
-                        p_dash := Some {| d_pos := pos; d_suffix := suf; d_file := Doc dd |} |})
+                        p_dash := Some {| d_pos := pos; d_suffix := suf; d_file := Doc dd |}; p_ignore_file := []; p_subdir := false |})
   = run q (with_proj c (only_dash pos suf dd)).
 Proof. exact dash_wins. Qed.
 Print Assumptions C05_dash_config_wins.
@@ -117,7 +117,7 @@ Print Assumptions C05_allowed_list_monotone.
 Theorem C05_invalid_value_exit_2 : forall q c k raw o cm b,
   flags_off q -> case_good c = true -> lang_good c = true ->
   spec_selected c = LDoc k raw ->
-  existsb (String.eqb (c_fname c)) (str_list (get "ignore" raw)) = false ->
+  existsb (String.eqb (c_fname c)) (p_ignore_file (c_proj c) ++ str_list (get "ignore" raw)) = false ->
   In (o, cm, b) (doc_guards (c_unit c)) ->
   bad_value (spec_res c (section_of (c_unit c) raw) o) cm b
   \/ bad_value (spec_res_top c (section_of (c_unit c) raw) o) cm b ->
@@ -139,20 +139,27 @@ Theorem C05_selection_errors : forall c,
 Proof. exact selection_errors. Qed.
 Print Assumptions C05_selection_errors.
 
-(* 6. the top-level ignore list of the winning carrier silences the linter on a matching file *)
+(* 6. the top-level ignore list of the winning carrier and the patterns of .thailintignore silence the linter on a
+      matching file *)
 Theorem C05_top_level_ignore : forall q c k raw,
   flags_off q -> case_good c = true -> lang_good c = true ->
-  spec_selected c = LDoc k raw -> In (c_fname c) (str_list (get "ignore" raw)) ->
+  spec_selected c = LDoc k raw -> In (c_fname c) (p_ignore_file (c_proj c) ++ str_list (get "ignore" raw)) ->
   run q c = Ran 0.
 Proof. exact top_level_ignore_honoured. Qed.
 Print Assumptions C05_top_level_ignore.
+
+Theorem C05_subdirectory_irrelevant : forall q c,
+  flags_off q -> case_good c = true -> lang_good c = true ->
+  run q (with_subdir c true) = run q (with_subdir c false).
+Proof. exact subdirectory_irrelevant. Qed.
+Print Assumptions C05_subdirectory_irrelevant.
 
 (* 7. the listed defects are confined: the vector claimed for the current tree meets the specification on every
       project configured through .thailint.yaml / .thailint.json, without CLI threshold options, well-typed limits, for the
       units none of whose flags is listed (partial: the full statement is 0) *)
 Theorem C05_actual_partial : forall c,
   unit_clean (c_unit c) = true -> case_good c = true -> lang_good c = true ->
-  p_pyproject (c_proj c) = Absent -> p_dash (c_proj c) = None -> c_overrides c = [] ->
+  p_pyproject (c_proj c) = Absent -> p_dash (c_proj c) = None -> c_overrides c = [] -> p_subdir (c_proj c) = false ->
   (forall k raw, spec_selected c = LDoc k raw ->
      no_type_error (doc_opts (c_unit c)) (doc_guards (c_unit c)) (spec_res c (section_of (c_unit c) raw))) ->
   (forall k raw, spec_selected c = LDoc k raw ->
@@ -167,6 +174,8 @@ Print Assumptions C05_actual_partial.
 Theorem C05_generated_layer :
   discovery_order = [".thailint.yaml"; ".thailint.json"] /\ pyproject_name = "pyproject.toml"
   /\ pyproject_table = ["tool"; "thailint"] /\ pyproject_error_swallowed = false
+  /\ root_markers = [".git"; ".thailint.yaml"; "pyproject.toml"]
+  /\ (global_config_missing_exits = true /\ global_config_invalid_exits = true)
   /\ repo_ignore_files = [".thailintignore"; ".thailint.yaml"; ".thailint.json"] /\ (norm_from = "-" /\ norm_to = "_")
   /\ (file_parser_normalises = true /\ pyproject_parser_normalises = true) /\ retry_exceptions = ["TypeError"]
   /\ valid_suffixes = doc_valid_suffixes /\ map row_proj cli_overrides = doc_cli_opts
@@ -175,8 +184,8 @@ Theorem C05_generated_layer :
   /\ (forall u, In u units -> guards_of guards u = doc_guards u)
   /\ (forall u, In u units -> gen_lang_opts u ++ doc_extra_lang_opts u = doc_lang_opts u).
 Proof.
-  exact (conj F_discovery (conj F_pyname (conj F_pytable (conj F_py_swallow (conj F_repo_files (conj F_norm (conj F_parsers (conj F_retry (conj F_suffixes (conj F_cli (conj F_errors
-        (conj F_opts (conj F_guards F_lang))))))))))))).
+  exact (conj F_discovery (conj F_pyname (conj F_pytable (conj F_py_swallow (conj F_markers (conj F_global_checks (conj F_repo_files (conj F_norm (conj F_parsers (conj F_retry (conj F_suffixes (conj F_cli (conj F_errors
+        (conj F_opts (conj F_guards F_lang))))))))))))))).
 Qed.
 Print Assumptions C05_generated_layer.
 
@@ -192,7 +201,7 @@ Print Assumptions C05_cli_override_rows.
    and the ideal vector satisfies flags_off *)
 Definition ex_case : case :=
   {| c_proj := {| p_yaml := Doc [("nesting", VMap [("max_nesting_depth", VInt 2%Z); ("rust", VMap [("max_nesting_depth", VInt 1%Z)])])];
-                  p_json := Doc [("nesting", VMap [("enabled", VBool false)])]; p_pyproject := Absent; p_dash := None |};
+                  p_json := Doc [("nesting", VMap [("enabled", VBool false)])]; p_pyproject := Absent; p_dash := None; p_ignore_file := []; p_subdir := false |};
      c_cmd := "nesting"; c_unit := "nesting"; c_lang := "rust"; c_fname := "case_src.rs";
      c_overrides := [("--max-depth", 5%Z)]; c_metrics := [("depth", 4%Z)] |}.
 Example C05_nonvacuous :
